@@ -21,7 +21,7 @@ import json, os
 import seqextra
 THEOREMS = {"C05.v": json.load(open(os.path.join(os.path.dirname(__file__), "_theorems.json")))["C05"],
             # every reachable state of the whole-allocator machine M2 is a crash point (UpperCrash.v)
-            "C05u.v": ["C05u_crash_safe", "C05u_counts_agree_after_recovery"]}
+            "C05u.v": ["C05u_crash_safe", "C05u_counts_agree_after_recovery", "C05u_crash_safe_with_any_tree_change"]}
 
 
 def jobs(ctx, rel):
